@@ -892,7 +892,7 @@ class SequentialContext:
                 cpy._clk,
                 cpy._reset,
                 step_cond=cpy._step_cond,
-                on_reset=on_reset,
+                on_reset=cpy._on_reset if on_reset is None else on_reset,
                 comment=cpy._comment,
                 attributes=attributes,
                 capture_lazy=cpy._capture_lazy,
